@@ -739,6 +739,195 @@ func expandCase(c *lib.Ctx, state *core.BuildState, tree []string, r *lib.Rng) {
 	c.HistN("expanded_targets", len(got))
 }
 
+// --- one process: the exclude option slice, appended to and handed to a fresh state per build (follow-up, seeded r2-m1)
+
+// sessOp is one step of a plz process as src/please.go runs it: `opts.BuildFlags.Exclude = append(opts.BuildFlags.Exclude, ...)`
+// (query changes, runBuild) or a build (Please(): a fresh state, state.SetIncludeAndExclude(.., opts.BuildFlags.Exclude)).
+type sessOp struct {
+	Append []string `json:"append,omitempty"`
+	Build  bool     `json:"build,omitempty"`
+}
+
+type sessInput struct {
+	Kind     string    `json:"kind"`
+	User     []string  `json:"exclude_flags"`
+	ExtraCap int       `json:"extra_capacity"`
+	Ops      []sessOp  `json:"ops"`
+	Probes   []jsLabel `json:"probes"`
+	Builds   []any     `json:"builds,omitempty"`
+}
+
+// docLabelShaped: what the documentation of --exclude calls a build label (as opposed to a label of a target):
+// //..., :name, or @subrepo with a package or a name.
+func docLabelShaped(e string) bool {
+	return strings.HasPrefix(e, "//") || strings.HasPrefix(e, ":") || (strings.HasPrefix(e, "@") && (strings.Contains(e, ":") || strings.Contains(e, "//")))
+}
+
+func sessionCase(c *lib.Ctx, user []string, extraCap int, ops []sessOp, probes []core.BuildLabel) {
+	defer flush(false)
+	// the process's option slice (with spare capacity or without: the caller's own appends then write in place or move)
+	opts := make([]string, len(user), len(user)+extraCap)
+	copy(opts, user)
+	// what the user asked for, kept by value: the oracle never looks at the slice the implementation was given
+	logical := append([]string{}, user...)
+	in := sessInput{Kind: "session", User: append([]string{}, user...), ExtraCap: extraCap, Ops: ops, Probes: jsl(probes)}
+	coqOps, coqObs := []string{}, []string{}
+	nbuilds, labelBeforePlain := 0, false
+	failed := map[string]bool{} // one report per class and session
+	fail := func(class, what string) {
+		if !failed[class] {
+			failed[class] = true
+			c.Fail(class, what, in)
+		}
+	}
+	for _, op := range ops {
+		if !op.Build {
+			opts = append(opts, op.Append...)
+			logical = append(logical, op.Append...)
+			coqOps = append(coqOps, lib.App("OAppend", lib.StrList(op.Append)))
+			continue
+		}
+		coqOps = append(coqOps, "OBuild")
+		seenLabel := false
+		for _, e := range logical {
+			if docLabelShaped(e) {
+				seenLabel = true
+			} else if seenLabel {
+				labelBeforePlain = true
+			}
+		}
+		state := &core.BuildState{}
+		state.SetIncludeAndExclude(nil, opts)
+		after := append([]string{}, opts...)
+		excl := append([]string{}, state.Exclude...)
+		et := append([]core.BuildLabel{}, state.ExcludeTargets...)
+		row := make([]bool, len(probes))
+		for i, p := range probes {
+			row[i] = !state.ShouldInclude(core.NewBuildTarget(p)) // the probes carry no labels: only ExcludeTargets can drop them
+		}
+		coqObs = append(coqObs, lib.Pair(lib.Pair(lib.Pair(lib.StrList(after), lib.StrList(excl)), coqLabels(et)), coqBools(row)))
+		in.Builds = append(in.Builds, map[string]any{"option_slice_after": after, "state_exclude": excl, "state_exclude_targets": jsl(et), "excluded": row})
+
+		// oracle, per build: the option slice is what the user gave plus what was appended, and a probe is dropped exactly
+		// when some label-shaped entry of THAT list selects it
+		c.Oracle()
+		same := len(after) == len(logical)
+		for i := 0; same && i < len(after); i++ {
+			same = after[i] == logical[i]
+		}
+		if !same {
+			fail("exclude-list-argument-modified", fmt.Sprintf("build %d: SetIncludeAndExclude was given the exclude options %q and left the caller's slice as %q", nbuilds+1, logical, after))
+			// the process goes on with what is in its slice now; the oracle keeps judging against what the user asked for
+		}
+		for i, p := range probes {
+			c.Oracle()
+			want, by := false, ""
+			for _, e := range logical {
+				if !docLabelShaped(e) {
+					continue
+				}
+				if l, err := core.TryParseBuildLabel(e, "", ""); err == nil && docIncludes(l, p) {
+					want, by = true, e
+				}
+			}
+			if row[i] != want {
+				switch {
+				case want && nbuilds > 0:
+					fail("exclude-pattern-lost-on-repeated-setup", fmt.Sprintf("build %d of one process: --exclude %s selects %v but the target is no longer excluded (exclude options %q)", nbuilds+1, by, p, logical))
+				case want:
+					fail("exclude-pattern-not-applied", fmt.Sprintf("--exclude %s selects %v but the target is not excluded (exclude options %q)", by, p, logical))
+				default:
+					fail("exclude-applied-without-pattern", fmt.Sprintf("build %d: %v is excluded but no entry of the exclude options %q selects it", nbuilds+1, p, logical))
+				}
+			}
+		}
+		nbuilds++
+	}
+	c.Case(lib.App("CSession", lib.StrList(user), lib.List(coqOps), coqLabels(probes), lib.List(coqObs)), in,
+		fmt.Sprint("sess", user, ops, probes), nbuilds >= 2 && labelBeforePlain)
+	c.HistN("session_builds", nbuilds)
+	if labelBeforePlain {
+		c.Hist("session", "pattern before a plain exclude")
+	} else {
+		c.Hist("session", "no pattern before a plain exclude")
+	}
+}
+
+var plainExcludes = []string{"manual", "py", "go,test", "foo*", "e2e", "@foo", "/x", "a//b", "manual:" + core.OsArch, "", "x:y"}
+
+// genSession: a package tree with shared-prefix siblings, 1-4 --exclude values (patterns of the tree in their printed
+// or @-spelling, and plain label expressions), one of the operation sequences of src/please.go or a random one.
+func genSession(r *lib.Rng) ([]string, int, []sessOp, []core.BuildLabel) {
+	tree := genTree(r, nil)
+	pats := genPatterns(r, tree)
+	manual := []string{"manual", "manual:" + core.OsArch}
+	spell := func(p core.BuildLabel) string {
+		s := p.String()
+		if p.Subrepo != "" && r.Chance(1, 2) {
+			s = "@" + strings.TrimPrefix(s, "///")
+		}
+		return s
+	}
+	usable := func(e string) bool {
+		if !docLabelShaped(e) {
+			return true
+		}
+		// SetIncludeAndExclude calls log.Fatalf on a label-shaped exclude that does not parse, and looks for the repository
+		// root for a relative one: neither can be run in the harness process
+		_, err := core.TryParseBuildLabel(e, "", "")
+		return err == nil && !strings.HasPrefix(e, ":")
+	}
+	pick := func(labelChance int) string {
+		for {
+			e := lib.Pick(r, plainExcludes)
+			if r.Chance(labelChance, 4) {
+				e = spell(lib.Pick(r, pats))
+			}
+			if usable(e) {
+				return e
+			}
+		}
+	}
+	user := []string{}
+	for k := r.Range(1, 4); k > 0; k-- {
+		user = append(user, pick(2))
+	}
+	if r.Chance(2, 3) {
+		user[0] = pick(4) // the shape of the command line that matters most: a pattern first
+	}
+	var ops []sessOp
+	switch r.Intn(5) {
+	case 0: // plz build / test: runBuild appends, one build
+		ops = []sessOp{{Append: manual}, {Build: true}}
+	case 1: // plz query changes --since: its own append, then runBuild twice
+		ops = []sessOp{{Append: manual}, {Append: manual}, {Build: true}, {Append: manual}, {Build: true}}
+	case 2: // plz watch: a build per change
+		ops = []sessOp{{Append: manual}, {Build: true}}
+		for k := r.Range(1, 3); k > 0; k-- {
+			ops = append(ops, sessOp{Append: manual}, sessOp{Build: true})
+		}
+	default:
+		for k := r.Range(2, 6); k > 0; k-- {
+			if r.Chance(1, 2) {
+				xs := []string{}
+				for j := r.Range(0, 2); j > 0; j-- {
+					xs = append(xs, pick(1))
+				}
+				ops = append(ops, sessOp{Append: xs})
+			} else {
+				ops = append(ops, sessOp{Build: true})
+			}
+		}
+		ops = append(ops, sessOp{Build: true})
+	}
+	probes := genOthers(r, tree)
+	if len(probes) > 8 {
+		lib.Shuffle(r, probes)
+		probes = probes[:8]
+	}
+	return user, r.Intn(4), ops, probes
+}
+
 // ------------------------------------------------------------------------------------------------
 
 func main() {
@@ -752,8 +941,11 @@ func main() {
 			"selection: random package trees of 2-5 seeds over 13 segment names, each with shared-prefix siblings (q+foo, q minus a byte), children and parents; "+
 			"all (pattern, label) pairs of a tree through Includes and Matches; validateSandbox (hook) on every tree package under a whitelist and experimental "+
 			"dirs drawn from the tree; CanSee with experimental dirs and visibility patterns; ExpandLabels over a graph of the tree with exclusions. "+
+			"process sessions: one exclude option slice (1-4 --exclude values: patterns of a tree in printed or @ spelling and plain label expressions, "+
+			"0-3 spare capacity) taken through the append/build sequences of src/please.go (build, query changes, watch) or a random one of 3-7 steps; every "+
+			"build calls SetIncludeAndExclude on a fresh state with the SAME slice and observes the slice, Exclude, ExcludeTargets and ShouldInclude of <= 8 tree labels. "+
 			"distinct = distinct inputs; non-trivial = accepted string / tree with a shared-prefix sibling pair under a `...` pattern / an actual sandbox opt-out "+
-			"/ different packages / non-empty expansion", maxLen, alphabet))
+			"/ different packages / non-empty expansion / a session with >= 2 builds whose slice has a pattern before a plain exclude", maxLen, alphabet))
 
 		labels := map[core.BuildLabel]bool{}
 
@@ -775,6 +967,10 @@ func main() {
 			Label   *jsLabel  `json:"label"`
 			Dep     *jsLabel  `json:"dep"`
 			Vis     []jsLabel `json:"visibility"`
+			User    []string  `json:"exclude_flags"`
+			Extra   int       `json:"extra_capacity"`
+			Ops     []sessOp  `json:"ops"`
+			Probes  []jsLabel `json:"probes"`
 		}
 		unjs := func(j jsLabel) core.BuildLabel {
 			return core.BuildLabel{PackageName: j.Pkg, Name: j.Name, Subrepo: j.Subrepo}
@@ -794,6 +990,9 @@ func main() {
 					return
 				}
 				switch {
+				case rp.Kind == "session" && len(rp.Ops) > 0:
+					sessionCase(c, rp.User, rp.Extra, rp.Ops, unjsl(rp.Probes))
+					replayed = true
 				case rp.Kind == "sandbox" && rp.Tgt != nil:
 					sandboxCase(c, sandboxState(unjsl(rp.WL), rp.Dirs), sbxTarget{unjs(*rp.Tgt), rp.FG, rp.Remote, rp.Sbx, rp.HasTest, rp.TestSbx})
 					replayed = true
@@ -959,6 +1158,21 @@ func main() {
 
 			expandCase(c, expandState, tree, r)
 		}
+		// --- 3. one process, several builds: the exclude option slice over its life (SetIncludeAndExclude)
+		// the seeded witness first: plz query changes --exclude //p/... (demo of seeded/C20/r2-m1)
+		manual := []string{"manual", "manual:" + core.OsArch}
+		wprobes := []core.BuildLabel{{PackageName: "p", Name: "a"}, {PackageName: "p/q", Name: "b"}, {PackageName: "pfoo", Name: "c"}, {PackageName: "other", Name: "d"}, {Name: "root"}}
+		qchanges := []sessOp{{Append: manual}, {Append: manual}, {Build: true}, {Append: manual}, {Build: true}}
+		sessionCase(c, []string{"//p/..."}, 0, qchanges, wprobes)
+		sessionCase(c, []string{"//p:all", "//p/q:all"}, 1, qchanges, wprobes)
+		sessionCase(c, []string{"//pfoo/...", "py", "//p/..."}, 0, qchanges, wprobes)
+		nsess := c.Scale(150, 3000)
+		for i := 0; i < nsess; i++ {
+			r := c.Rng.Fork()
+			user, extra, ops, probes := genSession(r)
+			sessionCase(c, user, extra, ops, probes)
+		}
+
 		for _, k := range []string{"parse", "sandbox", "cansee", "print"} {
 			closeBatch(c, k)
 		}
